@@ -7,7 +7,7 @@ EXPLANATION = (
     "trailing empty rows/cells (styled empties only when aggressive), keeps every value at its coordinates and is idempotent - real table.py/row.py code "
     "on the typed-element layer. "
 )
-OUTSIDE = "set_span with merge=True, spans on tables larger than 3x3, to_csv/import_from_csv (csv is C), repeats > 2 for transpose, ragged tables"
+OUTSIDE = "set_span with merge=True, spans on tables larger than 3x3, to_csv/import_from_csv (csv is C), repeats > 2 for transpose"
 ASSUMPTIONS = ["rectangular two row-runs x two cell-runs template with an optional run of trailing empty (possibly styled) cells and trailing empty rows"]
 TRUSTED = _T
 _E = ["src/odfdo/table.py:Table.transpose,rstrip,is_empty,optimize_width,_optimize_width_*", "src/odfdo/row.py:Row.rstrip,is_empty,extend_cells,traverse,minimized_width,force_width,last_cell"] + KT_ENCODES[2:3]
@@ -20,6 +20,7 @@ def _o(fn, secs, bounds, tier="quick"):
 
 OBLIGATIONS = [
     _o("ktrans_twice_small", 110, "repeats in 1..2, probe <= 4"),
+    _o("ktrans_ragged", 55, "ragged table: one row of 1..3 cells then 1..2 rows of 1..3 cells; transpose twice, probe <= 3"),
     _o("koptimize", 80, "row-runs in 1..3, cell-runs unbounded, trailing empty rows <= 3, trailing empty cells unbounded: optimize_width"),
     _o("krstrip_styled_rows", 10, "data rows 1..3 + 1..3 trailing rows of styled empty cells, aggressive flag symbolic"),
     _o("krstrip", 75, "row-runs in 1..3, cell-runs unbounded, trailing empty rows <= 3, trailing empty cells unbounded, styled/aggressive flags symbolic"),
